@@ -108,10 +108,9 @@ func (rndb *RowNamespaceDataBlock) Populate(ctx context.Context, eds eds.Accesso
 
 func (rndb *RowNamespaceDataBlock) UnmarshalFn(root *share.AxisRoots) UnmarshalFn {
 	return func(cntrData, idData []byte) error {
-		if !rndb.Container.IsEmpty() {
-			return nil
-		}
-
+		// NOTE: data is verified even if the Block is already populated. The hasher accepts whatever
+		// this function accepts, and the accepted bytes are handed to every other requester of the
+		// same CID, which unmarshals them on its own and trusts them to be valid.
 		rndid, err := shwap.RowNamespaceDataIDFromBinary(idData)
 		if err != nil {
 			return fmt.Errorf("unmarhaling RowNamespaceDataID: %w", err)
